@@ -47,97 +47,100 @@ def run(ctx, ck):
         q = f.qual
         fl = ctx.flow(f)
         ls = [l for l in loops_in(f.node) if isinstance(l, ast.For) and norm(l.iter) == 'self.image_iter()']
-        if len(ls) != 1:
-            ck.ob('R-EXH.image-loop', q + '|single-loop', False, f.loc(), '%d image loops' % len(ls))
+        if not ls:
+            ck.ob('R-EXH.image-loop', q + '|single-loop', False, f.loc(), 'no image loop')
             continue
-        l = ls[0]
-        kv = l.target.id if isinstance(l.target, ast.Name) else None
-        accs = [s for s in walk_no_nested(l) if isinstance(s, ast.AugAssign) and isinstance(s.op, ast.Add)
-                and (dotted(s.target) or base_name(s.target)) not in (None,)]
-        # accumulations into result arrays (attribute self.Z or arrays defined outside the loop)
-        body_ids = fl.cfg.loops[fl.cfg.node_of(l)][0]
-        res = []
-        for s in accs:
-            bn = base_name(s.target)
-            if bn == 'self':
-                res.append(s)
-            elif bn in fl.rd.names:
-                defs = [d for d in fl.def_exprs(bn, fl.cfg.node_of(l)) if d[0] == 'assign']
-                if defs and all(d[2] not in body_ids for d in defs):
+        # (one loop over the images, or one per quantity - E and H each with their own: every one is judged)
+        n_res_total = 0
+        for l in ls:
+            kv = l.target.id if isinstance(l.target, ast.Name) else None
+            accs = [s for s in walk_no_nested(l) if isinstance(s, ast.AugAssign) and isinstance(s.op, ast.Add)
+                    and (dotted(s.target) or base_name(s.target)) not in (None,)]
+            # accumulations into result arrays (attribute self.Z or arrays defined outside the loop)
+            body_ids = fl.cfg.loops[fl.cfg.node_of(l)][0]
+            res = []
+            for s in accs:
+                bn = base_name(s.target)
+                if bn == 'self':
                     res.append(s)
-        ck.floor('image accumulations in ' + q.split('.')[-1], len(res), 1)
-        for s in res:
-            nid = fl.node_id_of(s)
-            pr = product_of(s.value)
-            direct = any(isinstance(x, ast.Name) and x.id == kv for t, x in pr.num)
-            v = s.value
-            while isinstance(v, ast.Subscript) and not direct:
-                v = v.value
-                pr2 = product_of(v)
-                direct = any(isinstance(x, ast.Name) and x.id == kv for t, x in pr2.num)
-            dep = direct
-            if not dep:
-                # far-field style: a multiplicative factor is a sign array built (inside the loop)
-                # only by array constructors from literals and the image sign (kvec, kv2, kv2g)
-                CONSTR = ('np.array', 'np.tile', 'np.copy', 'np.ones', 'np.zeros', 'np.where', 'np.repeat', 'np.broadcast_to')
-
-                def is_sign_array(name, at, depth, seen):
-                    if depth <= 0 or (name, at) in seen:
-                        return False
-                    seen.add((name, at))
-                    ds = [d for d in fl.def_exprs(name, at) if d[0] == 'assign' and d[2] in body_ids]
-                    if not ds:
-                        return False
-                    found = False
-                    for d in ds:
-                        e = d[1]
-                        if not (isinstance(e, ast.Call) and (dotted(e.func) or '') in CONSTR):
-                            return False
-                        for x in ast.walk(e):
-                            if isinstance(x, ast.Name) and x.id == kv:
-                                found = True
-                            elif isinstance(x, ast.Name) and x.id in fl.rd.names and x.id != name:
-                                if is_sign_array(x.id, d[2], depth - 1, seen):
-                                    found = True
-                    return found
-                v2 = s.value
-                cands = []
-                for sub in ast.walk(v2):
-                    if isinstance(sub, ast.BinOp) and isinstance(sub.op, ast.Mult):
-                        for t_, x_ in product_of(sub).num:
-                            b_ = x_
-                            while isinstance(b_, (ast.Attribute, ast.Subscript)):
-                                b_ = b_.value
-                            if isinstance(b_, ast.Name):
-                                cands.append(b_.id)
-                dep = any(is_sign_array(nm, nid, 4, set()) for nm in set(cands))
+                elif bn in fl.rd.names:
+                    defs = [d for d in fl.def_exprs(bn, fl.cfg.node_of(l)) if d[0] == 'assign']
+                    if defs and all(d[2] not in body_ids for d in defs):
+                        res.append(s)
+            n_res_total += len(res)
+            for s in res:
+                nid = fl.node_id_of(s)
+                pr = product_of(s.value)
+                direct = any(isinstance(x, ast.Name) and x.id == kv for t, x in pr.num)
+                v = s.value
+                while isinstance(v, ast.Subscript) and not direct:
+                    v = v.value
+                    pr2 = product_of(v)
+                    direct = any(isinstance(x, ast.Name) and x.id == kv for t, x in pr2.num)
+                dep = direct
                 if not dep:
-                    # the sign arrays may be built in a helper that was written back in place, or be
-                    # folded into one expression: judge the factors of the accumulated product by what
-                    # they derive from - one of them must derive from the image sign (loop variable /
-                    # image_iter) and from literals and array constructors only, apart from masks
-                    from ..dataflow import value_alternatives
-                    alts_ = value_alternatives(fl, v2, nid)
-                    found_all = bool(alts_)
-                    for alt_, at_ in alts_:
-                      found_ = False
-                      for sub in ast.walk(alt_):
-                        if not (isinstance(sub, ast.BinOp) and isinstance(sub.op, ast.Mult)):
-                            continue
-                        for t_, x_ in product_of(sub).num:
-                            r_ = fl.roots(x_, at_)
-                            from_sign = ('call', 'self.image_iter') in r_ or ('iter', kv) in r_
-                            data = [y_ for y_ in r_ if y_[0] in ('attr', 'param') and not (
-                                y_[0] == 'attr' and (y_[1].startswith('self.pulses.') or y_[1] == 'self.pulses' or y_[1] == 'self.media'))
-                                and y_ != ('param', 'self')]
-                            if from_sign and not data:
-                                found_ = True
-                      found_all = found_all and found_
-                    dep = dep or found_all
-            ck.ob('R-EXH.image-loop', '%s|accumulate %s' % (q, norm(s.target)[:40]), dep, f.loc(s),
-                  'image contribution weighted by the image sign%s' % (' (factor k)' if direct else
-                                                                       ' (through sign arrays)') if dep
-                  else 'accumulated value does not depend on the image sign')
+                    # far-field style: a multiplicative factor is a sign array built (inside the loop)
+                    # only by array constructors from literals and the image sign (kvec, kv2, kv2g)
+                    CONSTR = ('np.array', 'np.tile', 'np.copy', 'np.ones', 'np.zeros', 'np.where', 'np.repeat', 'np.broadcast_to')
+
+                    def is_sign_array(name, at, depth, seen):
+                        if depth <= 0 or (name, at) in seen:
+                            return False
+                        seen.add((name, at))
+                        ds = [d for d in fl.def_exprs(name, at) if d[0] == 'assign' and d[2] in body_ids]
+                        if not ds:
+                            return False
+                        found = False
+                        for d in ds:
+                            e = d[1]
+                            if not (isinstance(e, ast.Call) and (dotted(e.func) or '') in CONSTR):
+                                return False
+                            for x in ast.walk(e):
+                                if isinstance(x, ast.Name) and x.id == kv:
+                                    found = True
+                                elif isinstance(x, ast.Name) and x.id in fl.rd.names and x.id != name:
+                                    if is_sign_array(x.id, d[2], depth - 1, seen):
+                                        found = True
+                        return found
+                    v2 = s.value
+                    cands = []
+                    for sub in ast.walk(v2):
+                        if isinstance(sub, ast.BinOp) and isinstance(sub.op, ast.Mult):
+                            for t_, x_ in product_of(sub).num:
+                                b_ = x_
+                                while isinstance(b_, (ast.Attribute, ast.Subscript)):
+                                    b_ = b_.value
+                                if isinstance(b_, ast.Name):
+                                    cands.append(b_.id)
+                    dep = any(is_sign_array(nm, nid, 4, set()) for nm in set(cands))
+                    if not dep:
+                        # the sign arrays may be built in a helper that was written back in place, or be
+                        # folded into one expression: judge the factors of the accumulated product by what
+                        # they derive from - one of them must derive from the image sign (loop variable /
+                        # image_iter) and from literals and array constructors only, apart from masks
+                        from ..dataflow import value_alternatives
+                        alts_ = value_alternatives(fl, v2, nid)
+                        found_all = bool(alts_)
+                        for alt_, at_ in alts_:
+                          found_ = False
+                          for sub in ast.walk(alt_):
+                            if not (isinstance(sub, ast.BinOp) and isinstance(sub.op, ast.Mult)):
+                                continue
+                            for t_, x_ in product_of(sub).num:
+                                r_ = fl.roots(x_, at_)
+                                from_sign = ('call', 'self.image_iter') in r_ or ('iter', kv) in r_
+                                data = [y_ for y_ in r_ if y_[0] in ('attr', 'param') and not (
+                                    y_[0] == 'attr' and (y_[1].startswith('self.pulses.') or y_[1] == 'self.pulses' or y_[1] == 'self.media'))
+                                    and y_ != ('param', 'self')]
+                                if from_sign and not data:
+                                    found_ = True
+                          found_all = found_all and found_
+                        dep = dep or found_all
+                ck.ob('R-EXH.image-loop', '%s|accumulate %s' % (q, norm(s.target)[:40]), dep, f.loc(s),
+                      'image contribution weighted by the image sign%s' % (' (factor k)' if direct else
+                                                                           ' (through sign arrays)') if dep
+                      else 'accumulated value does not depend on the image sign')
+        ck.floor('image accumulations in ' + q.split('.')[-1], n_res_total, 1)
     it = m.func('mininec.Mininec.image_iter')
     # closed returned sequences per path (tables, slices and iter/list wrappers folded)
     from ..symx import closed_returns
